@@ -44,7 +44,7 @@ META = {
             "2-8 transactions: reads/writes of assigned, unassigned and boundary addresses, cs_abort after every possible bit count "
             "(also mid clock period), overrun bits, literal jittered half-periods 3..9, CS gaps 2..12",
 }
-TIERS = {"quick": {"runs": 1800, "wall": 70}, "thorough": {"runs": 24000, "wall": 900}}
+TIERS = {"quick": {"runs": 5400, "wall": 70}, "thorough": {"runs": 24000, "wall": 900}}
 
 WINDOW = 8
 
